@@ -10,11 +10,13 @@
 // global variables, so the symbol table phase can't work out a symbol tbl
 // index for these variables.
 //
-// The closure region is pointers to cloned slices of the normal stack. When a
-// function returns a function we save the frame of the defining function in
-// the returned function value. When a function is called apart from pushing
-// the normal frame on the normal stack we need to push the closure frame from
-// the function value  on the closure stack.
+// The closure region is pointers to frames of defining functions. A function
+// value points to the frame of the call that created it: while that call is
+// active the frame is a slice of the normal stack, when the call returns the
+// frame is moved off the stack, so every function value created by the call
+// keeps the values its variables had then. When a function is called apart
+// from pushing the normal frame on the normal stack we need to push the closure
+// frame from the function value on the closure stack.
 //
 // Normal stack is an ever growing slice of values. The fp has a pair of
 // pointers into the stack per frame: fp and le the frame pointer and local
@@ -25,6 +27,7 @@ package memory
 
 import (
 	"fmt"
+	"slices"
 
 	"github.com/paulsonkoly/calc/types/dbginfo"
 	"github.com/paulsonkoly/calc/types/value"
@@ -44,15 +47,16 @@ type gframe map[string]value.Type
 type Type struct {
 	sp      int
 	fp      []int
+	frames  []*Frame // per call, the frame function values created by the call point to, or nil
 	global  gframe
-	closure []Frame
+	closure []*Frame
 	stack   []value.Type
 }
 
 // New creates a new memory, with an empty global frame and an empty stack.
 func New() *Type {
 	fp := make([]int, 0, minStackSize)
-	return &Type{fp: fp, global: gframe{}, closure: []Frame{}, stack: []value.Type{}}
+	return &Type{fp: fp, global: gframe{}, closure: []*Frame{}, stack: []value.Type{}}
 }
 
 // Clone does a memory copy for context switching.
@@ -71,6 +75,8 @@ func (m *Type) Clone(reuse *Type) *Type {
 	}
 
 	if reuse != nil {
+		// function values created by abandoned calls keep their frames
+		reuse.detachFrames()
 		if len(reuse.stack) < newStackSize {
 			// growStack decides by reuse.sp, which is stale here: grow by the missing amount
 			reuse.stack = append(reuse.stack, make([]value.Type, newStackSize-len(reuse.stack))...)
@@ -104,13 +110,14 @@ func (m *Type) Clone(reuse *Type) *Type {
 	if reuse != nil {
 		reuse.sp = m.sp - fp
 		reuse.fp = newFP
+		reuse.frames = append(reuse.frames[:0], nil)
 		reuse.global = m.global
 		reuse.closure = closure
 		reuse.stack = newStack
 		return reuse
 	}
 
-	return &Type{sp: m.sp - fp, fp: newFP, global: m.global, closure: closure, stack: newStack}
+	return &Type{sp: m.sp - fp, fp: newFP, frames: []*Frame{nil}, global: m.global, closure: closure, stack: newStack}
 }
 
 // CallDepth is the number of call frames.
@@ -138,7 +145,7 @@ func (m *Type) LookUpLocal(symIdx int) value.Type {
 // LookUpClosure looks up a closure variable. A variable that was local in the
 // containing lexical scope.
 func (m *Type) LookUpClosure(symIdx int) value.Type {
-	return m.closure[len(m.closure)-1][symIdx]
+	return (*m.closure[len(m.closure)-1])[symIdx]
 }
 
 // LookUpGlobal looks up a global variable.
@@ -159,6 +166,7 @@ func (m *Type) PushFrame(argsCnt, localCnt int) {
 	}
 	m.sp += localCnt - argsCnt
 	m.fp = append(m.fp, m.sp-localCnt, m.sp)
+	m.frames = append(m.frames, nil)
 }
 
 // Push pushes a value.
@@ -169,12 +177,18 @@ func (m *Type) Push(v value.Type) {
 }
 
 // PushClosure pushes the closure frame.
-func (m *Type) PushClosure(f Frame) {
+func (m *Type) PushClosure(f *Frame) {
 	m.closure = append(m.closure, f)
 }
 
-// PopFrame pops a stack frame.
+// PopFrame pops a stack frame. Function values the call created keep the
+// frame: it is moved off the stack.
 func (m *Type) PopFrame() {
+	if f := m.frames[len(m.frames)-1]; f != nil {
+		*f = slices.Clone(*f)
+	}
+	m.frames = m.frames[:len(m.frames)-1]
+
 	fp := m.fp[len(m.fp)+localFP]
 	m.sp = fp
 	m.fp = m.fp[:len(m.fp)-2]
@@ -201,6 +215,20 @@ func (m *Type) Top() Frame {
 	return m.stack[fp:le]
 }
 
+// TopRef is the frame of the active call for a function value the call
+// creates. It follows the stack when that is reallocated, and it leaves the
+// stack when the call returns.
+func (m *Type) TopRef() *Frame {
+	if len(m.frames) < 1 {
+		return new(Frame)
+	}
+	if m.frames[len(m.frames)-1] == nil {
+		frame := m.Top()
+		m.frames[len(m.frames)-1] = &frame
+	}
+	return m.frames[len(m.frames)-1]
+}
+
 // IP returns the function return address.
 func (m *Type) IP() *value.Type {
 	if len(m.fp)+localFE < 0 {
@@ -218,7 +246,23 @@ func (m *Type) ResetSP() {
 func (m *Type) growStack(size int) {
 	if m.sp+size >= len(m.stack) {
 		m.stack = append(m.stack, make([]value.Type, max(minStackSize, size))...)
+		// the stack may have moved: frames of active calls follow it
+		for i, f := range m.frames {
+			if f != nil {
+				*f = m.stack[m.fp[2*i]:m.fp[2*i+1]]
+			}
+		}
 	}
+}
+
+// detachFrames moves the frames function values point to off the stack.
+func (m *Type) detachFrames() {
+	for _, f := range m.frames {
+		if f != nil {
+			*f = slices.Clone(*f)
+		}
+	}
+	m.frames = m.frames[:0]
 }
 
 // DumpStack is a debug dump of the stack.
@@ -261,7 +305,8 @@ func (m *Type) DumpStack(dbg *dbginfo.Type) {
 
 // Reset drops all stack local allocations.
 func (m *Type) Reset() {
+	m.detachFrames()
 	m.sp = 0
-	m.closure = []Frame{}
+	m.closure = []*Frame{}
 	m.fp = []int{}
 }
